@@ -199,12 +199,19 @@ def _check_writes(ctx, model):
                    "guard")
         elif rv == ("lit", "frozenset",
                     (("attr", ("attr", ("self", "lhs"), "aggregate"), "name"),)):
-            ok = (("self", "lhs"), "Subscript") in pos
-            kinds.add("subscript")
-            ctx.ob("P/Assignment.get_written_variables/subscript", ok, loc,
-                   "Subscript target -> {lhs.aggregate.name}" if ok else
-                   "lhs.aggregate.name is returned without an "
-                   "isinstance(lhs, Subscript) guard")
+            # the guard must establish a class that has an aggregate: a
+            # subscript, or (outside the property's statement kinds) a look-up
+            gcls = [c for t, c in pos if t == ("self", "lhs")]
+            ok = bool(gcls) and all(
+                model.nodes.get(c) is not None
+                and "aggregate" in model.nodes.get(c).field_names for c in gcls)
+            if "Subscript" in gcls:
+                kinds.add("subscript")
+            for c in gcls or ["?"]:
+                ctx.ob(f"P/Assignment.get_written_variables/{c.lower()}", ok, loc,
+                       f"{c} target -> {{lhs.aggregate.name}}" if ok else
+                       "lhs.aggregate.name is returned without a guard "
+                       "establishing that lhs has an aggregate (Subscript)")
         else:
             ctx.ob(f"P/Assignment.get_written_variables/exit:"
                    f"{ast.unparse(ps.items[-1][1])}", False, loc,
@@ -314,7 +321,8 @@ def _p(name):
 
 def _is_copy_of(v, param):
     return v in (("call", "list", (_p(param),), ()),
-                 ("call", "tuple", (_p(param),), ())) or (
+                 ("call", "tuple", (_p(param),), ()),
+                 ("copy", _p(param))) or (
         v[0] == "call" and v[1] == f"{param}.copy")
 
 
